@@ -174,6 +174,21 @@ CHECKS["C20"] = (
     "DESIGN.md §3 C20",
 )
 
+CHECKS["C19"] = (
+    "exploration",
+    "deterministic thread scheduler on sys.monitoring LINE events (baton passing, cooperative replacement of the library's RLocks) enumerating preemptions of concurrent first uses of lazily decorated classes; per-schedule comparison of every thread outcome and of a canonical class description with the eager sequential reference",
+    "For each source (grammar-generated modules and hand-written shapes: __new__ defined/inherited, lazily bootstrapped parent, lazily "
+    "bootstrapped nested type) a fresh lazily decorated copy is exec-ed per schedule and 2 or 3 real threads perform first uses "
+    "(instantiate, __spec_class__, dataclasses.fields, instantiate subclass, nested use). Schedules: each thread first without "
+    "preemption, single preemptions of the first thread at every executed library line (thorough) or a stratified sample (quick), "
+    "double preemptions over first occurrences of distinct lines, PCT-style random priorities. Every thread outcome and the canonical "
+    "description (metadata, attribute specs, factory results, method names + signatures, class-level defaults, fresh instance "
+    "repr/state, helper result) of every class must equal the bootstrap=True sequential reference; exceptions, deadlocks and "
+    "half-built classes are violations.",
+    "Trusted: scheduler (statement-start preemption only). Timeouts of the watchdog make the run INCONCLUSIVE, never held.",
+    "DESIGN.md §3 C19",
+)
+
 NOT_YET = {}
 
 
